@@ -48,8 +48,8 @@ extern size_t carquet_zstd_compress_bound(size_t src_size);
 
 typedef struct carquet_page_writer {
     carquet_buffer_t values_buffer;      /* Encoded values */
-    carquet_buffer_t def_levels_buffer;  /* Definition levels (RLE) */
-    carquet_buffer_t rep_levels_buffer;  /* Repetition levels (RLE) */
+    carquet_buffer_t def_levels_buffer;  /* Definition levels of the page (raw int16, encoded at finalize) */
+    carquet_buffer_t rep_levels_buffer;  /* Repetition levels of the page (raw int16, encoded at finalize) */
     carquet_buffer_t page_buffer;        /* Final page with header */
 
     carquet_physical_type_t type;
@@ -189,13 +189,15 @@ static carquet_status_t encode_levels(
         (uint8_t)((rle_size >> 16) & 0xFF),
         (uint8_t)((rle_size >> 24) & 0xFF)
     };
-    carquet_buffer_append(output, len_bytes, 4);
+    status = carquet_buffer_append(output, len_bytes, 4);
 
     /* Append the RLE-encoded data */
-    carquet_buffer_append(output, rle_buffer.data, rle_buffer.size);
+    if (status == CARQUET_OK) {
+        status = carquet_buffer_append(output, rle_buffer.data, rle_buffer.size);
+    }
     carquet_buffer_destroy(&rle_buffer);
 
-    return CARQUET_OK;
+    return status;
 }
 
 /* ============================================================================
@@ -307,16 +309,25 @@ carquet_status_t carquet_page_writer_add_values(
         writer->num_nulls += (num_values - num_non_null);
     }
 
-    /* Encode definition levels */
-    if (writer->max_def_level > 0 && def_levels) {
-        encode_levels(def_levels, num_values, writer->max_def_level,
-                      &writer->def_levels_buffer);
+    /* Accumulate the levels of this batch. A data page carries exactly one
+     * length-prefixed RLE block per level kind, so the levels of all batches
+     * that land in the page are encoded together in finalize. */
+    if (writer->max_def_level > 0 && def_levels && num_values > 0) {
+        carquet_status_t lvl_status = carquet_buffer_append(
+            &writer->def_levels_buffer, def_levels,
+            (size_t)num_values * sizeof(int16_t));
+        if (lvl_status != CARQUET_OK) {
+            return lvl_status;
+        }
     }
 
-    /* Encode repetition levels */
-    if (writer->max_rep_level > 0 && rep_levels) {
-        encode_levels(rep_levels, num_values, writer->max_rep_level,
-                      &writer->rep_levels_buffer);
+    if (writer->max_rep_level > 0 && rep_levels && num_values > 0) {
+        carquet_status_t lvl_status = carquet_buffer_append(
+            &writer->rep_levels_buffer, rep_levels,
+            (size_t)num_values * sizeof(int16_t));
+        if (lvl_status != CARQUET_OK) {
+            return lvl_status;
+        }
     }
 
     /* Encode values using PLAIN encoding.
@@ -486,15 +497,25 @@ carquet_status_t carquet_page_writer_finalize(
     carquet_buffer_init(&uncompressed);
 
     if (writer->rep_levels_buffer.size > 0) {
-        carquet_buffer_append(&uncompressed,
-                               writer->rep_levels_buffer.data,
-                               writer->rep_levels_buffer.size);
+        carquet_status_t lvl_status = encode_levels(
+            (const int16_t*)writer->rep_levels_buffer.data,
+            (int64_t)(writer->rep_levels_buffer.size / sizeof(int16_t)),
+            writer->max_rep_level, &uncompressed);
+        if (lvl_status != CARQUET_OK) {
+            carquet_buffer_destroy(&uncompressed);
+            return lvl_status;
+        }
     }
 
     if (writer->def_levels_buffer.size > 0) {
-        carquet_buffer_append(&uncompressed,
-                               writer->def_levels_buffer.data,
-                               writer->def_levels_buffer.size);
+        carquet_status_t lvl_status = encode_levels(
+            (const int16_t*)writer->def_levels_buffer.data,
+            (int64_t)(writer->def_levels_buffer.size / sizeof(int16_t)),
+            writer->max_def_level, &uncompressed);
+        if (lvl_status != CARQUET_OK) {
+            carquet_buffer_destroy(&uncompressed);
+            return lvl_status;
+        }
     }
 
     carquet_buffer_append(&uncompressed,
